@@ -74,6 +74,8 @@ AllItems == {
   TDer("tA1", "A1", << <<"A", 1>> >>, "a1"),                \* same dimension as base type A
   TDer("tMpA_dup", "MpA2", << <<"M", 1>>, <<"A", -1>> >>, "mpx"),  \* dimension of MpA again, explicit symbol, no ref unit derivable
   TDer("tApB2", "ApB2", << <<"A", 1>>, <<"B", -2>> >>, "apb2"),
+  TDer("tA3", "A3", << <<"A", 3>> >>, "a3"),                        \* a cube type - with or without the square type
+  TDer("tABpM", "ABpM", << <<"A", 1>>, <<"B", 1>>, <<"M", -1>> >>, "GEN"),  \* a component without reference unit comes last
   TDer("tA2_symdup", "A2s", << <<"A", 2>> >>, "a"),                 \* free dimension, reference symbol already taken
   TDer("tAB_symdup", "ABs", << <<"A", 1>>, <<"B", 1>> >>, "b"),
   UScaled("ka", "A", "ka", <<10, 1>>, "a"),
